@@ -537,7 +537,7 @@ Theorem step_preserves fx T U w s :
   InvU U w -> ok_step U w s ->
   InvU (grow U (new_op w s)) (step fx T w s).1 /\ world_le w (step fx T w s).1.
 Proof.
-  intros I Hok. destruct s as [n k v lease|n k|n sender b|n|m n|i j late|f| |n|n p|n p|n p|n s filter]; simpl in *.
+  intros I Hok. destruct s as [n k v lease|n k|n sender b|n|m n|i j late|f| |n|n p|n p|n p|n s filter|n s]; simpl in *.
   - apply step_write; assumption.
   - apply step_write; assumption.
   - split; [apply InvU_grow_None, InvU_ingest_at; assumption|apply world_le_ingest_at].
@@ -567,6 +567,15 @@ Proof.
   - destruct (step_recover U w n p I) as [I' L]. split; [apply InvU_grow_None, I'|exact L].
   - unfold subscribe. destruct (w_nodes w !! n) as [nd|] eqn:En; [|split; [apply InvU_grow_None, I|apply world_le_refl]].
     destruct (n_subs nd !! s); [split; [apply InvU_grow_None, I|apply world_le_refl]|].
+    split.
+    + apply InvU_grow_None. eapply (InvU_upd0 U w n nd _ (w_fbs w)); [exact I|exact En|..]; simpl.
+      * eapply InvU_keyed; eassumption.
+      * intros k o H. eapply InvU_eng; eassumption.
+      * intros k o H. eapply InvU_store; eassumption.
+      * lia.
+      * eapply iu_rec; eassumption.
+    + eapply (world_le_upd w n nd _ (w_msgs w) (w_fbs w)); [exact En|]. simpl. intros k d H. exists d. auto using entry_le_refl.
+  - unfold stall. destruct (w_nodes w !! n) as [nd|] eqn:En; [|split; [apply InvU_grow_None, I|apply world_le_refl]].
     split.
     + apply InvU_grow_None. eapply (InvU_upd0 U w n nd _ (w_fbs w)); [exact I|exact En|..]; simpl.
       * eapply InvU_keyed; eassumption.
